@@ -838,7 +838,9 @@ func reifyPrimitive(
 		}
 	}
 
-	if err := runValidators(v.Interface(), opts.validators); err != nil {
+	// (a value that unpacks itself is held by a pointer here: the validate
+	// tags apply to the value)
+	if err := runValidators(chaseValuePointers(v).Interface(), opts.validators); err != nil {
 		return reflect.Value{}, raiseValidation(val.Context(), val.meta(), "", err)
 	}
 
